@@ -35,6 +35,7 @@ ASSUMPTIONS = [
     '"no current id is in _closed" after restart_workers holds relative to id freshness (T4); ids are never removed from _closed',
 ]
 MUTANTS = [
+    ('pyworkers/pool.py', "        return self._close(timeout, force, False)", "        return self._close(timeout, force, True)", 'Pool.terminate closes gracefully (waits for stuck workers)'),
     ('pyworkers/pool.py', "                if alive and (force is not False or not graceful):", "                if alive and not graceful:",
      'close() no longer terminates workers that do not finish in time'),
     ('pyworkers/pool.py', "        for worker in self._workers.values():\n            t = threading.Thread(target=cleanup_worker, args=(worker,))",
@@ -146,6 +147,42 @@ def pool_obj(ex, env, queue_kind=('abs', 'Conn')):
     ex.assume(own_id(ex, workers, w0))
     ex.assume(z3.IsSubset(queues.dom, workers.dom))       # representation invariant (C07 INV queues_subset): every queue belongs to a registered worker
     return self_v
+
+
+def wrapper_lemmas(ex):
+    """close() and terminate() are _close(timeout, force, graceful) with graceful True / False: the arguments are passed through unchanged"""
+    from pyvc.contracts import Contract
+    POOL = 'pyworkers.pool.Pool'
+    out = []
+    for name, graceful in (('close', True), ('terminate', False)):
+        def su(ex_, env):
+            I = ex_.interp
+            env['self'] = ex_.alloc(HObj(ex_.repo.cls(POOL), {}))
+            env['timeout'] = I.sym('timeout')
+            env['force'] = I.sym('force')
+            ex_.ghost['close_calls'] = []
+
+            def hook(i2, fi, a, k, n, s):
+                ex_.ghost['close_calls'] = ex_.ghost['close_calls'] + [list(a[1:])]
+                r = I.sym('close_result')
+                ex_.ghost['close_result'] = r
+                return r
+            ex_.ghost['__call_hooks__'] = {POOL + '._close': hook}
+
+        def post(c, graceful=graceful):
+            ex_ = c.ex
+            calls = ex_.ghost['close_calls']
+            if len(calls) != 1 or len(calls[0]) != 3:
+                return z3.BoolVal(False)
+            t, f, g = calls[0]
+            return z3.And(lower(t, ex_) == lower(c.env['timeout'], ex_), lower(f, ex_) == lower(c.env['force'], ex_),
+                          z3.BoolVal(isinstance(g, VBool)) if not isinstance(g, VBool) else (g.e == z3.BoolVal(graceful)),
+                          lower(c.env['result'], ex_) == lower(ex_.ghost['close_result'], ex_))
+        post.__doc__ = f'{name}() is exactly one call _close(timeout, force, {graceful}) whose result is returned'
+        out.append((Contract(POOL + '.' + name, lid=f'L1w-{name}', name=f'C09.L1w-{name} Pool.{name} is _close with graceful={graceful}',
+                             params={'self': ('const', None), 'timeout': ('const', None), 'force': ('const', None)}, self_class=POOL, setup=su,
+                             ensures=[post], raises={}, raises_only=[]), None))
+    return out
 
 
 def build(ex):
@@ -543,6 +580,7 @@ def build(ex):
         params={p: ('const', None) for p in ('self', 'worker_type', 'name', 'userid', 'target', 'args', 'kwargs', 'worker_kwargs')}, self_class=P, setup=aw_setup,
         ensures=[registered_ok], raises={'AnyException': None, 'ValueError': None}, raises_only=['AnyException', 'ValueError'],
         all_exits=[existing_kept, failed_not_leaked, queues_subset], options={'recv_closed_check': False}), None))
+    lemmas += wrapper_lemmas(ex)
     return lemmas
 
 
